@@ -4,7 +4,7 @@ from .. import lib, scen, runner, declgen, inigen, units
 from . import common, parsecheck
 
 INI_KEYS = ["panic", "err", "vals", "calls", "bytes", "set"]
-PROFILE = dict(p_addoption=0.08, p_bad_default=0.0, p_required=0.03, p_commands=0.45, p_group=0.45, p_namespace=0.6, p_ininame=0.3, p_inicross=0.12, p_noini=0.06, p_hidden=0.05,
+PROFILE = dict(p_addoption=0.08, p_dupfield=0.1, p_bad_default=0.0, p_required=0.03, p_commands=0.45, p_group=0.45, p_namespace=0.6, p_ininame=0.3, p_inicross=0.12, p_noini=0.06, p_hidden=0.05,
                p_default=0.25, p_env=0.05, p_init=0.1, p_choice=0.08, p_positional=0.1, p_help=0.3)
 
 
